@@ -2,7 +2,7 @@
 import itertools
 from fractions import Fraction
 
-from harness import core, gen
+from harness import core, gen, common
 
 ID = 'C01'
 LEAN_TARGETS = ['Props.C01']
@@ -178,9 +178,9 @@ def run_job(job, tier, seed):
             res.count('sig_degenerate' if 0 in c['sig'] else 'sig_nondegenerate')
             res.count('order_custom' if c['order'] is not None else 'order_shortlex')
             res.count('ids_custom' if (c['ids'] is not None or c['first'] not in (None, 1)) else 'ids_default')
-        _compare_tables(res, layouts)
+        common.gcall(res, _compare_tables, layouts)
         for tag, L in layouts:
-            check_layout_predicates(res, L, rng, tag, light=(L.gaDims > 64 and tier == 'quick'))
+            common.gcall(res, check_layout_predicates, L, rng, tag, light=(L.gaDims > 64 and tier == 'quick'))
         # predefined algebra modules: documented signature, table, predicates
         pre = []
         for name, (attr, sig) in real.PREDEFINED.items():
@@ -194,10 +194,10 @@ def run_job(job, tier, seed):
             if L.gaDims <= 256:
                 pre.append((f"P_{name.replace(':', '_')}", L))
             if L.gaDims <= 32:
-                check_layout_predicates(res, L, rng, name)
+                common.gcall(res, check_layout_predicates, L, rng, name)
             else:
-                check_layout_predicates(res, L, rng, name, light=True)
-        _compare_tables(res, pre)
+                common.gcall(res, check_layout_predicates, L, rng, name, light=True)
+        common.gcall(res, _compare_tables, pre)
         # the sign kernels called directly
         from clifford._layout import gmt_element, canonical_reordering_sign
         from clifford._layout_helpers import canonical_reordering_sign_euclidean
@@ -242,7 +242,7 @@ def run_job(job, tier, seed):
             for n in (5, 6):
                 cases.append(dict(sig=gen.random_signature(rng, n), ids=None, first=None, order=None))
         layouts = [(f"J{i}", real.make_layout(c['sig'], c['ids'], c['first'], c['order'])) for i, c in enumerate(cases)]
-        _compare_tables(res, layouts)
+        common.gcall(res, _compare_tables, layouts)
         lines, meta = [], []
         for tag, L in layouts:
             lines.append(real.layout_line(tag, L))
@@ -304,7 +304,7 @@ def run_job(job, tier, seed):
                 res.disagree('A*B differs from the model product', dict(layout=real.layout_line(tag, L), kind=kind,
                              A=A.value.tolist(), B=B.value.tolist()), obs, exp, dict(sig=[int(x) for x in L.sig]))
         for tag, L in layouts:
-            check_layout_predicates(res, L, rng, tag)
+            common.gcall(res, check_layout_predicates, L, rng, tag)
     else:
         raise ValueError(job)
     return res
